@@ -35,3 +35,40 @@ let c13_storage_trace arith toks =
         | _ -> "BADARGS")
      | _ -> "BADARGS")
   | _ -> "BADARGS"
+
+(* C13: STORAGE_KCOUNT <same tokens> -> "KC <total> <max> <kernel result line>" : the kernel result in the
+   K-line output format preceded by the cumulative number of accepted sub-steps over the whole run and
+   the largest per-step count (one evaluation; for long runs whose full trace is too large to print). *)
+let rec c13_nat_to_int (n : nat) : int = match n with O -> 0 | S m -> 1 + c13_nat_to_int m
+let c13_storage_kcount arith toks =
+  match toks with
+  | "P" :: n :: r ->
+    let (ps, r) = c13_take (int_of_string n) r in
+    (match r with
+     | "S" :: n :: r ->
+       let (ss, r) = c13_take (int_of_string n) r in
+       (match r with
+        | "I" :: k :: len :: r ->
+          let k = int_of_string k and len = int_of_string len in
+          let rec rows k r acc = if k = 0 then List.rev acc else
+              let (row, r) = c13_take len r in rows (k-1) r (List.map c13_unhex row :: acc) in
+          let ins = rows k r [] in
+          let (res, counts) = storage_kernel_counts arith (List.map c13_unhex ps) (List.map c13_unhex ss) ins in
+          let counts = List.map c13_nat_to_int counts in
+          let b = Buffer.create 4096 in
+          Buffer.add_string b (Printf.sprintf "KC %d %d " (List.fold_left (+) 0 counts) (List.fold_left max 0 counts));
+          (match res with
+           | None -> Buffer.add_string b "PANIC"
+           | Some (outs, sts) ->
+             Buffer.add_string b "OK O ";
+             Buffer.add_string b (string_of_int (List.length outs));
+             Buffer.add_char b ' ';
+             Buffer.add_string b (string_of_int (match outs with [] -> 0 | o :: _ -> List.length o));
+             List.iter (fun row -> List.iter (fun v -> Buffer.add_char b ' '; Buffer.add_string b (c13_hex v)) row) outs;
+             Buffer.add_string b " S ";
+             Buffer.add_string b (string_of_int (List.length sts));
+             List.iter (fun v -> Buffer.add_char b ' '; Buffer.add_string b (c13_hex v)) sts);
+          Buffer.contents b
+        | _ -> "BADARGS")
+     | _ -> "BADARGS")
+  | _ -> "BADARGS"
